@@ -656,73 +656,73 @@ def repeat_arms(run, ctx):
         if not (LO and NEXT and REP) or (eps and not CHK) or ((not eps) and not HI):
             v("fields", "arm does not bind the expected fields (%s)" % binds)
             continue
-        paths = fpaths(arm["body"])
-        for p in paths:
-            total += 1
-            evs = p.events
-            rc = [ev for ev in evs if ev.kind == "let" and ev.b == "state.get(%s)" % REP]
-            if not rc:
-                v("count-read", "the repetition count must be read from its slot")
-                break
-            RC = rc[0].a
-            pf = S.PathFacts(evs)
-            saves = [ev.a for ev in evs if ev.kind == "call" and ev.a.startswith("state.save(")]
-            pushes = [ev.a for ev in evs if ev.kind == "call" and ev.a.startswith("state.push(")]
-            setpc = [ev.c for ev in evs if ev.kind == "assign" and ev.a == "pc"]
-            exit_to_next = (p.exit == "continue" and setpc == [NEXT])
-            falls_into_body = (p.exit == "fall" and not setpc)
-            failed = (p.exit == "break" and p.label in ("fail", "'fail"))
-            if p.exit == "try-err":
-                continue
-            if not eps:
-                hit = [ev for ev in evs if ev.kind == "cond" and H.pat_match("(%s == %s)" % (HI, RC), ev.a) or ev.kind == "cond" and H.pat_match("(%s == %s)" % (RC, HI), ev.a)]
-                if not hit:
-                    v("hi-test", "no `repcount == hi` test")
-                    break
-                if hit[0].b:
-                    if not exit_to_next or saves or pushes:
-                        v("hi-exit", "at repcount == hi the loop must be left (pc = next) without touching state")
-                    continue
-            else:
-                # empty-iteration guard: repcount > lo && check == ix  => fail
-                g1 = [ev for ev in evs if ev.kind == "cond" and H.pat_match("(%s < %s)" % (LO, RC), ev.a)]
-                if not g1:
-                    v("eps-guard", "no `repcount > lo` test guarding the empty-iteration check")
-                    break
-                if g1[0].b:
-                    g2 = [ev for ev in evs if ev.kind == "cond" and (ev.a == "(ix == state.get(%s))" % CHK or ev.a == "(state.get(%s) == ix)" % CHK)]
-                    if not g2:
-                        v("eps-check", "under repcount > lo the position must be compared with the check slot")
+        # decided under sample valuations of (count so far, lo, hi, "this iteration started where the last one did"):
+        # exactly one path is feasible for each, and what it does to the state is compared with the reference
+        paths = [p for p in fpaths(arm["body"]) if p.exit != "try-err"]
+        GETR, GETC = "state.get(%s)" % REP, "state.get(%s)" % (CHK or "?")
+        bad = None
+        for n_ in (0, 1, 2, 3, 6):
+            for lo_ in (0, 1, 2, 3):
+                for hi_ in ((1, 2, 3, 6, S.UMAX) if not eps else (S.UMAX,)):
+                    for same_ in ((True, False) if eps else (False,)):
+                        if not eps and (n_ > hi_):
+                            continue          # the count never passes hi
+                        total += 1
+                        vals = {GETR: n_, LO: lo_, "ix": 7}
+                        if not eps:
+                            vals[HI] = hi_
+                        else:
+                            vals[GETC] = 7 if same_ else 5
+                        feas = [p for p in paths if S.consistent(p, vals) is not False]
+                        sure = [p for p in feas if S.consistent(p, vals) is True]
+                        desc = "count %d, lo %d%s%s" % (n_, lo_, "" if eps else ", hi %s" % ("MAX" if hi_ == S.UMAX else hi_), (", iteration %s" % ("empty" if same_ else "advanced")) if eps else "")
+                        if len(feas) != 1 or len(sure) != 1:
+                            bad = ("decide", "for %s the arm's behaviour is not decided by one path (%d candidates): the count must be read from its slot and compared with lo%s" % (desc, len(feas), "" if eps else " and hi"))
+                            break
+                        p = feas[0]
+                        sm = S.Summary(p, ("state.save(", "state.push("))
+                        calls = [c_.replace("(%s + 1)" % GETR, "(1 + %s)" % GETR) for c_ in sm.calls]
+                        setpc = [ev.c for ev in p.events if ev.kind == "assign" and ev.a == "pc"]
+                        lets_ = {ev.a: ev.b for ev in p.events if ev.kind == "let"}
+                        exit_to_next = p.exit == "continue" and [H.subst_lets(x, lets_) for x in setpc] == [NEXT]
+                        falls_into_body = p.exit == "fall" and not setpc
+                        failed = p.exit == "break" and p.label in ("fail", "'fail")
+                        inc = "state.save(%s,(1 + %s))" % (REP, GETR)
+                        rec = "state.save(%s,ix)" % CHK
+                        if not eps and n_ == hi_:
+                            if not exit_to_next or calls:
+                                bad = ("hi-exit", "at repcount == hi the loop must be left (pc = next) without touching state (%s: %s, exit %s)" % (desc, calls, p.exit))
+                        elif eps and n_ > lo_ and same_:
+                            if not failed or calls:
+                                bad = ("eps-fail", "an iteration that matched the empty string beyond the minimum must fail (prevents endless empty loops) (%s: %s, exit %s)" % (desc, calls, p.exit))
+                        elif failed:
+                            bad = ("spurious-fail", "fails although nothing forbids another iteration (%s)" % desc)
+                        elif n_ < lo_:
+                            if calls != [inc] or not falls_into_body:
+                                bad = ("below-lo", "below the minimum the count is stored as repcount + 1 and the body runs with no alternative pushed (%s: %s, exit %s)" % (desc, calls, p.exit))
+                        else:
+                            alt = "state.push(%s,ix)" % (NEXT if greedy else "(1 + pc)")
+                            want = [inc] + ([rec] if eps else []) + [alt]
+                            if sorted(calls) != sorted(want) or (greedy and not falls_into_body) or (not greedy and not exit_to_next):
+                                bad = ("greedy-order" if greedy else "lazy-order", "%s (%s: found %s, pc %s, exit %s)" % (
+                                    "greedy: store count + 1%s, push the exit (next, ix) as the alternative and continue with the body" % (", record the position in the check slot" if eps else "") if greedy else
+                                    "lazy: store count + 1%s, push the body (pc + 1, ix) as the alternative and continue at next" % (", record the position in the check slot" if eps else ""), desc, calls, setpc, p.exit))
+                            elif not greedy and calls[-1] != alt:
+                                # the pushed branch *is* the next iteration: what it must see has to be stored before the push
+                                # (a store after the push is undone when the branch is resumed)
+                                bad = ("lazy-store-after-push", "lazy: the count%s must be stored before the body branch is pushed -- a store made after the push is undone when that branch is resumed, so the loop would never reach hi (%s: %s)" % (" and the check position" if eps else "", desc, calls))
+                        if bad:
+                            break
+                    if bad:
                         break
-                    if g2[0].b:
-                        if not failed or saves or pushes:
-                            v("eps-fail", "an iteration that matched the empty string beyond the minimum must fail (prevents endless empty loops)")
-                        continue
-                if failed:
-                    v("eps-spurious-fail", "fails although the empty-iteration condition (repcount > lo && check == ix) does not hold")
-                    continue
-            # counted path: save(repeat, repcount+1) first
-            want_inc = "state.save(%s,(1 + %s))" % (REP, RC)
-            if want_inc not in saves:
-                v("count-inc", "the count must be stored as repcount + 1 (found %s)" % saves)
-                continue
-            ge = [ev for ev in evs if ev.kind == "cond" and H.pat_match("(%s <= %s)" % (LO, RC), ev.a)]
-            if not ge:
-                v("lo-test", "no `repcount >= lo` test deciding whether leaving the loop is allowed")
+                if bad:
+                    break
+            if bad:
                 break
-            if ge[0].b:
-                if eps and "state.save(%s,ix)" % CHK not in saves:
-                    v("eps-record", "the position must be recorded in the check slot when an optional iteration starts")
-                if greedy:
-                    if pushes != ["state.push(%s,ix)" % NEXT] or not falls_into_body:
-                        v("greedy-order", "greedy: push the exit (next, ix) as the alternative and continue with the body; found push %s, pc %s" % (pushes, setpc))
-                else:
-                    if pushes != ["state.push((1 + pc),ix)"] or not exit_to_next:
-                        v("lazy-order", "lazy: push the body (pc + 1, ix) as the alternative and continue at next; found push %s, pc %s, exit %s" % (pushes, setpc, p.exit))
-            else:
-                if pushes or not falls_into_body:
-                    v("below-lo", "below the minimum the body must run with no alternative pushed")
-    run.floor(fam, label, H.where(fn), total, 12, "paths through the four repeat arms")
+        if bad:
+            v(bad[0], bad[1])
+            total += 1000         # the floor below is about a vacuous pass, not about an arm that already failed
+    run.floor(fam, label, H.where(fn), total, 200, "sample valuations decided for the four repeat arms")
     run.ok(fam, label, H.where(fn), total, "RepeatGr/Ng/EpsilonGr/EpsilonNg: hi exit, empty-iteration guard, count+1, lo test, greedy/lazy order")
 
 
